@@ -26,6 +26,8 @@ structure Scoped where
   issuer : String
   nameText : String
   session : Sp.AuthnStmt
+  address : Option String := none
+  statusSecond : Option String := none
 
 def Scoped.assertion (s : Scoped) : Sp.Assertion :=
   { sig := if s.asig then .valid else .absent
@@ -34,7 +36,8 @@ def Scoped.assertion (s : Scoped) : Sp.Assertion :=
     authn := [s.session]
     subject := some { nameId := some s.nameText,
                       confs := [{ method := .bearer,
-                                  data := some { nb := none, nooa := some (s.now + s.life), recipient := some s.dest, irt := some s.irt } }] } }
+                                  data := some { nb := none, nooa := some (s.now + s.life), recipient := some s.dest, irt := some s.irt,
+                                                 address := s.address } }] } }
 
 def Scoped.response (s : Scoped) : Sp.Response :=
   { sig := if s.rsig then .valid else .absent
@@ -43,6 +46,7 @@ def Scoped.response (s : Scoped) : Sp.Response :=
     destination := some s.dest
     inResponseTo := some s.irt
     issuer := some s.issuer
+    statusSecond := s.statusSecond
     assertions := [s.assertion] }
 
 structure Accepts (cfg : Cfg) (env : Env) (s : Scoped) (cf : String) : Prop where
@@ -62,6 +66,7 @@ structure Accepts (cfg : Cfg) (env : Env) (s : Scoped) (cf : String) : Prop wher
   instantLow : env.now - 86400 - cfg.skew ≤ s.now
   instantHigh : s.now < env.now + 86400 + cfg.skew
   sessionOk : ∀ t, s.session.sessionNooa = some t → env.now ≤ t + cfg.skew
+  addrOk : Sp.truthy s.address = true → env.convInfo = false
 
 theorem plainOf_scoped (s : Scoped) : plainOf s.response = [s.assertion] := by
   simp [plainOf, Scoped.response, Scoped.assertion]
@@ -99,6 +104,13 @@ theorem verifyEnvelope_scoped {cfg : Cfg} {env : Env} {s : Scoped} {cf : String}
   have h2 := h.instantHigh
   have hm : s.dest ∈ cfg.returnAddrs := by simpa using h.destMine
   simp [Scoped.response, h.asynchop, truthy, hm, issueInstantOk, h1, h2]
+
+theorem attesting_one (env : Env) (m : Method) (d : ScData) (hok : Sp.truthy d.address = true → env.convInfo = false) :
+    attestingOk env [SubjConf.mk m (some d)] = true := by
+  unfold attestingOk
+  cases ht : Sp.truthy d.address
+  · simp [ht]
+  · simp [ht, hok ht]
 
 /-- the state after the one assertion has been checked -/
 def finalSt (s : Scoped) (cf : String) : St :=
@@ -142,8 +154,10 @@ theorem checkAssertion_scoped {cfg : Cfg} {env : Env} {s : Scoped} {cf : String}
     have h1 := h.lifeNonneg
     have h3 := h.notExpired
     have e1 : ¬ (s.now + s.life + (cfg.skew : Int) < env.now) := by omega
+    have hatt := attesting_one env .bearer
+      (ScData.mk none (some (s.now + s.life)) (some s.dest) (some s.irt) s.address false) h.addrOk
     unfold getSubject
-    simp [Scoped.assertion, attestingOk, Sp.truthy, confirmLoop, bearerConfirmed, optExpired, optPremature, onOrAfterOk,
+    simp [Scoped.assertion, hatt, confirmLoop, bearerConfirmed, optExpired, optPremature, onOrAfterOk,
       laterThan, hcf, h.destNonempty, recipientOk, hm, e1]
   have hauthn' : authnStatementOk cfg env { ({ cameFrom := some cf } : St) with hasAssertion := true } s.assertion =
       .ok { cameFrom := some cf, hasAssertion := true,
@@ -224,7 +238,7 @@ def assertionOf (d : Defaults) (cfg : Idp.Cfg) (a : Args W) (nid : NameId) : Iss
   { issuer := some cfg.entityId
     sig := if resolve a.signAssertion cfg.signAssertion d.signAssertion then some (sigInfo d cfg a) else none
     nameId := some nid
-    confs := [{ method := .bearer, recipient := some a.destination, irt := some a.inResponseTo, nb := none, nooa := some nooa }]
+    confs := [confOf d a nooa]
     condNb := some a.now
     condNooa := some nooa
     audiences := [[a.spEntityId]]
@@ -237,12 +251,15 @@ def responseOf (d : Defaults) (cfg : Idp.Cfg) (a : Args W) (nid : NameId) : Issu
     inResponseTo := some a.inResponseTo
     issueInstant := a.now
     sig := if resolve a.signResponse cfg.signResponse d.signResponse then some (sigInfo d cfg a) else none
-    assertions := [assertionOf d cfg a nid] }
+    assertions := [assertionOf d cfg a nid]
+    statusTop := statusTopOf d a
+    statusSecond := a.status.bind (·.second) }
 
 /-- Inversion of `create`: the Response is `responseOf` for the NameID `chooseNameId` settled on, and a
     Response signature is only made with allow-listed algorithms. -/
 theorem create_ok_inv {d : Defaults} {cfg : Idp.Cfg} {a : Args W} {r : Issued W} (h : create d cfg a = .ok r) :
     ∃ nid, chooseNameId d cfg (a.releasePolicy.getD cfg.policy) a = .ok nid ∧ r = responseOf d cfg a nid ∧
+      fargRefusal d a = none ∧
       (resolve a.signResponse cfg.signResponse d.signResponse = true →
         d.sigAllowed.contains (sigInfo d cfg a).sigAlg = true ∧ d.digestAllowed.contains (sigInfo d cfg a).digestAlg = true) := by
   unfold create at h
@@ -252,6 +269,9 @@ theorem create_ok_inv {d : Defaults} {cfg : Idp.Cfg} {a : Args W} {r : Issued W}
   next nid hn =>
     refine ⟨nid, hn, ?_⟩
     split at h
+    · cases h
+    next hfarg =>
+    split at h
     next hs =>
       split at h
       · cases h
@@ -260,14 +280,14 @@ theorem create_ok_inv {d : Defaults} {cfg : Idp.Cfg} {a : Args W} {r : Issued W}
         · cases h
         next h2 =>
           cases h
-          refine ⟨by simp [responseOf, assertionOf, hs], fun _ => ⟨by simpa using h1, by simpa using h2⟩⟩
+          refine ⟨by simp [responseOf, assertionOf, hs], hfarg, fun _ => ⟨by simpa using h1, by simpa using h2⟩⟩
     next hs =>
       cases h
-      refine ⟨by simp [responseOf, assertionOf, hs], fun ht => by simp [ht] at hs⟩
+      refine ⟨by simp [responseOf, assertionOf, hs], hfarg, fun ht => by simp [ht] at hs⟩
 
 /-- When `create` refuses. -/
 theorem create_error_inv {d : Defaults} {cfg : Idp.Cfg} {a : Args W} {e : Refusal} (h : create d cfg a = .error e) :
-    chooseNameId d cfg (a.releasePolicy.getD cfg.policy) a = .error e ∨
+    chooseNameId d cfg (a.releasePolicy.getD cfg.policy) a = .error e ∨ fargRefusal d a = some e ∨
     (resolve a.signResponse cfg.signResponse d.signResponse = true ∧
       ((e = .sigAlgNotAllowed ∧ d.sigAllowed.contains (sigInfo d cfg a).sigAlg = false) ∨
        (e = .digestAlgNotAllowed ∧ d.digestAllowed.contains (sigInfo d cfg a).digestAlg = false))) := by
@@ -276,6 +296,10 @@ theorem create_error_inv {d : Defaults} {cfg : Idp.Cfg} {a : Args W} {e : Refusa
   split at h
   next e' hn => cases h; exact Or.inl hn
   next nid hn =>
+    right
+    split at h
+    next e' hf => cases h; exact Or.inl hf
+    next hfarg =>
     right
     split at h
     next hs =>
@@ -430,17 +454,60 @@ def scopedOf (d : Defaults) (cfg : Idp.Cfg) (a : Args W) (nid : NameId) : Scoped
     aud := a.spEntityId
     issuer := cfg.entityId
     nameText := nid.text
-    session := { sessionNooa := a.sessionNooa, sessionIndex := some a.freshSession } }
+    session := { sessionNooa := a.sessionNooa, sessionIndex := some a.freshSession }
+    address := a.farg.bind (·.address)
+    statusSecond := a.status.bind (·.second) }
+
+/-- Under `shapingNeutral` the confirmation is the default one (plus the caller's Address). -/
+theorem confOf_neutral {d : Defaults} {a : Args W} {ci : Bool} (nooa : Int) (h : C09.shapingNeutral d a ci = true) :
+    confOf d a nooa = { method := .bearer, recipient := some a.destination, irt := some a.inResponseTo, nb := none,
+                        nooa := some nooa, address := a.farg.bind (·.address) } := by
+  unfold C09.shapingNeutral at h
+  unfold confOf
+  cases hf : a.farg with
+  | none => simp
+  | some f =>
+    simp only [hf, Bool.and_eq_true, Option.isNone_iff_eq_none] at h
+    obtain ⟨⟨⟨⟨⟨hm, hr⟩, hi⟩, hnb⟩, _⟩, _⟩ := h
+    cases hmm : f.method with
+    | none => simp [hmm, hr, hi, hnb]
+    | some m =>
+      have : m = d.bearer := by simpa [hmm] using hm
+      simp [hmm, hr, hi, hnb, methodOf, this]
+
+theorem statusTop_neutral {d : Defaults} {a : Args W} {ci : Bool} (h : C09.shapingNeutral d a ci = true)
+    (hs : d.statusSuccess = C09.successUri) : statusTopOf d a = "urn:oasis:names:tc:SAML:2.0:status:Success" := by
+  unfold C09.shapingNeutral at h
+  unfold statusTopOf
+  simp only [Bool.and_eq_true] at h
+  cases hst : a.status with
+  | none => simpa [C09.successUri] using hs
+  | some st => simpa [hst, C09.successUri] using h.2
+
+theorem address_neutral {d : Defaults} {a : Args W} {ci : Bool} (h : C09.shapingNeutral d a ci = true) :
+    Sp.truthy (a.farg.bind (·.address)) = true → ci = false := by
+  unfold C09.shapingNeutral at h
+  intro ht
+  cases hf : a.farg with
+  | none => simp [hf, Sp.truthy] at ht
+  | some f =>
+    simp only [hf, Bool.and_eq_true, Bool.or_eq_true, Bool.not_eq_true'] at h
+    have hsame : Idp.truthy f.address = Sp.truthy f.address := by
+      cases f.address <;> rfl
+    rcases h.1.2 with h1 | h1
+    · simp [hf, ← hsame, h1] at ht
+    · exact h1
 
 theorem sigState_ite (b : Bool) (i : SigInfo) :
     sigState true (if b = true then some i else none) = if b = true then Sp.Sig.valid else Sp.Sig.absent := by
   cases b <;> rfl
 
-theorem toSp_responseOf {d : Defaults} {cfg : Idp.Cfg} {a : Args W} {nid : NameId} {x : Authn}
-    (hdest : a.destination ≠ "") (ha : a.authn = some x) (hc : truthy x.classRef = true) :
+theorem toSp_responseOf {d : Defaults} {cfg : Idp.Cfg} {a : Args W} {nid : NameId} {x : Authn} {ci : Bool}
+    (hdest : a.destination ≠ "") (ha : a.authn = some x) (hc : truthy x.classRef = true)
+    (hn : C09.shapingNeutral d a ci = true) (hs : d.statusSuccess = C09.successUri) :
     toSp true (responseOf d cfg a nid) = (scopedOf d cfg a nid).response := by
   simp only [toSp, responseOf, assertionOf, toSpAssertion, authnOut_class ha hc, Scoped.response, Scoped.assertion, scopedOf,
-    List.map_cons, List.map_nil]
+    List.map_cons, List.map_nil, confOf_neutral _ hn, statusTop_neutral hn hs]
   simp [sigState_ite, hdest]
   constructor <;> (split <;> simp_all)
 
